@@ -15,6 +15,7 @@ type tNet struct {
 	w                    []float64
 	nSensors             int
 	neuronsFirst         bool
+	outsReversed         bool
 }
 
 type tNetCfg struct {
@@ -25,6 +26,7 @@ type tNetCfg struct {
 	biasFirst              bool // bias nodes are listed before the input nodes (sensor order is by id, not by role)
 	concreteW              bool // distinct concrete weights (keeps recurrent multi-step terms linear in the inputs)
 	neuronsFirst           bool // the network's node list names the neurons before the sensors (not grouped sensors-first)
+	outsReversed           bool // the network's output list names the outputs in the reverse of their order in the node list
 	hidAnyOrder            bool // feed-forward links between two hidden nodes may also run from the later-listed (higher id) to the earlier one
 }
 
@@ -134,7 +136,8 @@ func tBuild(c tNetCfg) *tNet {
 	}
 	inputs := append([]*NNode{}, t.all[:t.nSensors]...)
 	t.neuronsFirst = c.neuronsFirst
-	t.net = NewNetwork(inputs, t.outs, t.listed(), 1)
+	t.outsReversed = c.outsReversed
+	t.net = NewNetwork(inputs, t.outList(), t.listed(), 1)
 	return t
 }
 
@@ -263,7 +266,11 @@ func (t *tNet) reference(x []float64) []float64 {
 	done := make([]bool, len(t.all))
 	outs := make([]float64, len(t.outs))
 	for i := range t.outs {
-		outs[i] = t.refValue(t.nSensors+i, x, memo, done)
+		j := i
+		if t.outsReversed {
+			j = len(t.outs) - 1 - i
+		}
+		outs[i] = t.refValue(t.nSensors+j, x, memo, done)
 	}
 	return outs
 }
@@ -274,6 +281,18 @@ func symInputs(n int) []float64 {
 		x[i] = symW("x")
 	}
 	return x
+}
+
+// outList: the output list handed to the network - in node-list order or reversed
+func (t *tNet) outList() []*NNode {
+	if !t.outsReversed {
+		return t.outs
+	}
+	l := make([]*NNode, 0, len(t.outs))
+	for i := len(t.outs) - 1; i >= 0; i-- {
+		l = append(l, t.outs[i])
+	}
+	return l
 }
 
 // listed: the node list handed to the network - t.all, or with the neurons named before the sensors
